@@ -901,10 +901,8 @@ class VectorExpression:
         return _vector_binary_op(self, other, "-")
 
     def __rsub__(self, other: float | int) -> VectorExpression:
-        # other - self
-        return VectorExpression(
-            [BinaryOp(_ensure_expr(other), expr, "-") for expr in self._expressions]
-        )
+        # other - self (element-wise for an array on the left)
+        return _vector_binary_op(self, other, "-", reflected=True)
 
     def __mul__(self, other: float | int) -> VectorExpression:
         """Scalar multiplication."""
@@ -918,10 +916,8 @@ class VectorExpression:
         return _vector_binary_op(self, other, "/")
 
     def __rtruediv__(self, other: float | int) -> VectorExpression:
-        """Right scalar division."""
-        return VectorExpression(
-            [BinaryOp(_ensure_expr(other), expr, "/") for expr in self._expressions]
-        )
+        """Right division (element-wise for an array on the left)."""
+        return _vector_binary_op(self, other, "/", reflected=True)
 
     def __neg__(self) -> VectorExpression:
         """Negate all elements."""
@@ -1235,10 +1231,8 @@ class VectorVariable:
         return _vector_binary_op(self, other, "-")
 
     def __rsub__(self, other: float | int) -> VectorExpression:
-        """Right subtraction: scalar - vector."""
-        return VectorExpression(
-            [BinaryOp(_ensure_expr(other), v, "-") for v in self._variables]
-        )
+        """Right subtraction: scalar - vector, array - vector (element-wise)."""
+        return _vector_binary_op(self, other, "-", reflected=True)
 
     def __mul__(self, other: float | int) -> VectorExpression:
         """Scalar multiplication: x * 2."""
@@ -1253,10 +1247,8 @@ class VectorVariable:
         return _vector_binary_op(self, other, "/")
 
     def __rtruediv__(self, other: float | int) -> VectorExpression:
-        """Right scalar division: 1 / x."""
-        return VectorExpression(
-            [BinaryOp(_ensure_expr(other), v, "/") for v in self._variables]
-        )
+        """Right division: 1 / x, array / x (element-wise)."""
+        return _vector_binary_op(self, other, "/", reflected=True)
 
     def __neg__(self) -> VectorExpression:
         """Negate all elements: -x."""
@@ -1620,6 +1612,7 @@ def _vector_binary_op(
     left: VectorVariable | VectorExpression,
     right: VectorVariable | VectorExpression | float | int,
     op: Literal["+", "-", "*", "/", "**"],
+    reflected: bool = False,
 ) -> VectorExpression:
     """Helper for element-wise binary operations on vectors.
 
@@ -1627,6 +1620,8 @@ def _vector_binary_op(
         left: Left operand (VectorVariable or VectorExpression).
         right: Right operand (vector or scalar).
         op: Operation to perform.
+        reflected: Build ``right op left`` element by element (for __rsub__ and
+            __rtruediv__: ``array - x``, ``array / x``).
 
     Returns:
         VectorExpression with element-wise results.
@@ -1643,6 +1638,8 @@ def _vector_binary_op(
         left_exprs = list(left._expressions)
 
     # Handle right operand
+    if isinstance(right, np.generic):
+        right = right.item()  # NumPy scalar (np.int64(2) - x)
     if isinstance(right, (int, float)):
         # Scalar broadcast
         right_exprs = [Constant(right)] * len(left_exprs)
@@ -1693,10 +1690,16 @@ def _vector_binary_op(
         )
 
     # Create element-wise operations
-    result_exprs = [
-        BinaryOp(left_expr, right_expr, op)
-        for left_expr, right_expr in zip(left_exprs, right_exprs)
-    ]
+    if reflected:
+        result_exprs = [
+            BinaryOp(right_expr, left_expr, op)
+            for left_expr, right_expr in zip(left_exprs, right_exprs)
+        ]
+    else:
+        result_exprs = [
+            BinaryOp(left_expr, right_expr, op)
+            for left_expr, right_expr in zip(left_exprs, right_exprs)
+        ]
 
     return VectorExpression(result_exprs)
 
